@@ -118,6 +118,33 @@ CHECKS = {
         note="Trusted: reference normaliser/matcher, objdump and the encoder as input source. Negative displacement without 0x and segment/* operands are outside the statement.",
         ref="DESIGN.md 4/C06",
     ),
+    "C15": dict(
+        cat="exploration",
+        technique="differential testing on generated ELF objects (Hypothesis): JASM's binary route vs the harness's own `objdump -d -M att [-j ..]` text fed through the assembly route",
+        text="Generated ELF64/ELF32 relocatables with several exec/non-exec sections and function/object symbols, crossed with section lists of every kind (absent, one, several, "
+        "present+absent mix, only absent, non-exec); the instruction stream and the all-matches lists of three listing-derived rules must be identical between the two routes; "
+        "when objdump itself fails for the request JASM may raise or return empty but not match. Cases run back to back in one process, so stale section state is exercised.",
+        note="Trusted: objdump 2.40 (both routes use it), the ELF writer as input source.",
+        ref="DESIGN.md 4/C15",
+    ),
+    "C16": dict(
+        cat="exploration",
+        technique="metamorphic testing (Hypothesis): presentation edits on real and synthetic listings must leave the instruction stream and match lists unchanged",
+        text="1-6 edits per case from 24 kinds (labels, <sym+off> annotations, # comments, blank lines, section headers, file-format header, indentation 0-12, byte column content and "
+        "length, continuation lines, global strip of blanks/labels/section headers) applied to objdump output of generated objects/blobs and to rendered listings; "
+        "all_instructions_string and the all-matches lists of three derived rules are compared before/after.",
+        note="Trusted: the edit functions keep instruction text byte-identical (they only touch what the statement lists). CRLF / no-raw-insn are out of scope.",
+        ref="DESIGN.md 4/C16",
+    ),
+    "C18": dict(
+        cat="exploration",
+        technique="property-based testing (Hypothesis): ranges and branch targets generated on and around both bounds with spelling variants; per-instruction three-valued oracle on the stream and on call:/jmp: [valid_addr] rules",
+        text="Ranges of 1-16 hex digits (min=max included, 0x / upper-case / leading-zero spellings) against listings whose direct call/jmp targets sit at min-1, min, max, max+1, "
+        "inside, far away and with other digit counts, mixed with indirect branches, conditional jumps and non-branches carrying in-range numbers. Each instruction is MUST-tag, "
+        "MUST-NOT or UNSPEC; the tagged stream is compared record by record with the untagged one, and the rule results with the MUST set.",
+        note="Trusted: numeric comparison in the harness. Conditional jumps and callq/jmpq are unspecified by the statement and accepted either way.",
+        ref="DESIGN.md 4/C18",
+    ),
 }
 
 NOT_APPLICABLE = []
